@@ -25,6 +25,18 @@ def param_terms(params):
             for p in params]
 
 
+def own_assignments(params, type_var_map):
+    """name -> term of what the map assigns to THESE parameters (looked up the
+    way the helpers do: a caller's map may also hold equally named parameters of
+    other declarations)."""
+    out = {}
+    for p in params:
+        v = (type_var_map or {}).get(p)
+        if v is not None:
+            out[str(p.name)] = terms.to_term(v)
+    return out
+
+
 def wildcard_ids(objs):
     from src.ir import types as tp
     ids = set()
@@ -73,7 +85,7 @@ class Core:
             try:
                 params = param_terms(type_constructor.type_parameters)
                 pre = {'kind': 'itc', 'ctor': terms.cname(type_constructor), 'params': params,
-                       'pre': {str(k.name): terms.to_term(v) for k, v in (type_var_map or {}).items()},
+                       'pre': own_assignments(type_constructor.type_parameters, type_var_map),
                        'in_wild': wildcard_ids(list((type_var_map or {}).values()) + [
                            t for t in types if hasattr(t, 'is_wildcard')]),
                        'vc': effective_choices(str(type_constructor.name), params, variance_choices,
@@ -96,7 +108,8 @@ class Core:
                     pre['arg_prim'] = [bool(getattr(a, 'primitive', False)) for a in ptype.type_args]
                     pre['arg_new_wild'] = [hasattr(a, 'is_wildcard') and a.is_wildcard() and id(a) not in pre['in_wild']
                                            for a in ptype.type_args]
-                    pre['map'] = {str(k.name): terms.to_term(v) for k, v in m.items()}
+                    pre['map'] = own_assignments(type_constructor.type_parameters, m)
+                    pre['fullmap'] = {str(k.name): terms.to_term(v) for k, v in m.items()}
                     pre['objs'] = list(ptype.type_args) + [type_constructor]
                     pre['result'] = terms.to_term(ptype)
                     core.records.append(pre)
@@ -110,7 +123,7 @@ class Core:
             pre = None
             try:
                 pre = {'kind': 'ipf', 'ctor': '<function>', 'params': param_terms(type_parameters),
-                       'pre': {str(k.name): terms.to_term(v) for k, v in (type_var_map or {}).items()},
+                       'pre': own_assignments(type_parameters, type_var_map),
                        'in_wild': wildcard_ids(list((type_var_map or {}).values())),
                        'vc': None, 'usv': bool(core.cfg.dis.use_site_variance),
                        'usc': bool(core.cfg.dis.use_site_contravariance)}
@@ -129,7 +142,8 @@ class Core:
                     pre['arg_prim'] = [bool(getattr(a, 'primitive', False)) for a in vals]
                     pre['arg_new_wild'] = [a is not None and hasattr(a, 'is_wildcard') and a.is_wildcard()
                                            and id(a) not in pre['in_wild'] for a in vals]
-                    pre['map'] = {str(k.name): terms.to_term(v) for k, v in r.items()}
+                    pre['map'] = own_assignments(type_parameters, r)
+                    pre['fullmap'] = {str(k.name): terms.to_term(v) for k, v in r.items()}
                     pre['objs'] = [a for a in vals if a is not None]
                     pre['result'] = None
                     core.records.append(pre)
@@ -207,7 +221,9 @@ def judge(rec, T, out, witness):
             continue
         # P2
         if p[2] is not None:
-            b = terms.subst(p[2], m)
+            full = dict(rec.get('fullmap') or {})
+            full.update(m)
+            b = terms.subst(p[2], full)
             x = strip_cov(a)
             if p[0] in rec['pre']:
                 out.skip('P2:pre-assigned-by-caller')
@@ -217,9 +233,8 @@ def judge(rec, T, out, witness):
                 out.skip('P2:contravariant-or-star-projection')
             elif b[0] == 'w':
                 out.skip('P2:bound-is-projection')
-            elif b[0] == 'w' or terms.has_kind(b, ('v',)) and any(
-                    n in m for n in terms.free_vars(b)):
-                out.skip('P2:bound-still-mentions-own-parameter')
+            elif terms.has_kind(b, ('v',)):
+                out.skip('P2:bound-still-mentions-a-variable')
             else:
                 bb = strip_cov(b)
                 r = terms.refsub3(x, bb, T)
